@@ -27,7 +27,7 @@ func VerifC03_LoginCompletes() {
 	host := vn.String("req-host", 4)
 	target := vn.String("req-target", vn.Bound("path-bytes", 6))
 	// the first request is neither the callback nor the logout endpoint
-	first := kitHTTPReq(scheme, host, target, map[string]string{})
+	first := kitHTTPReq(scheme, host, target, kitClientHeaders())
 	vn.Assume(!matchesCallbackPath(env.h.log, cfg, first.GetAttributes().GetRequest().GetHttp()))
 	vn.Assume(!matchesLogoutPath(env.h.log, cfg, first.GetAttributes().GetRequest().GetHttp()))
 
